@@ -17,6 +17,8 @@
 // alias.go: expected types that are graphs of type aliases (fan-in, cycles), every call in a child process under a
 // deadline (a call that does not return violates clause total), and the model tie of the walk that describe makes
 // over the expected type (coq/Model/DescribeWalk.v).
+// hist.go: histories of calls on the same type and value objects under different subjects through every entry point
+// (coq/Model/DescribeHist.v).
 package main
 
 import (
@@ -379,6 +381,10 @@ func run(cfg *lib.Config, res *lib.Result) {
 		runAlias(cfg, res, rng, u)
 		return
 	}
+	if os.Getenv("C19_PART") == "hist" { // development aid: only the histories
+		runHist(cfg, res, rng)
+		return
+	}
 	u.FillInst()
 	u.FillAsg()
 	for _, c := range u.Crashes {
@@ -589,6 +595,9 @@ func run(cfg *lib.Config, res *lib.Result) {
 
 	// ---- expected types that are graphs of aliases, in a child process under a deadline (alias.go)
 	runAlias(cfg, res, rng, u)
+
+	// ---- histories of calls on the same objects (hist.go)
+	runHist(cfg, res, rng)
 }
 
 // gAssert prints the observed outcome of an assertion; the classes come from the wording of the detail
@@ -726,8 +735,13 @@ func replayInputs(path string) []interface{} {
 func replay(cfg *lib.Config, res *lib.Result) {
 	dcf, tcf, icf, ccf, wcf, acf := newDescCases(), newATypeCases(), newAInstCases(), newCallableCases(), newWalkCases(), newActualCases()
 	pats, strs := map[string]bool{}, map[string]bool{}
+	ohcf, nhcf := newOHistCases(), newNHistCases()
+	hpats, hstrs := map[string]bool{}, map[string]bool{}
 	for _, in := range replayInputs(cfg.Replay) {
 		if replayAlias(res, in, wcf, acf) {
+			continue
+		}
+		if replayHist(res, in, ohcf, nhcf, hpats, hstrs) {
 			continue
 		}
 		if replayExt(res, in, ccf, pats, strs) {
@@ -810,5 +824,13 @@ func replay(cfg *lib.Config, res *lib.Result) {
 	}
 	if len(acf.Cases) > 0 {
 		res.CorrFiles = append(res.CorrFiles, acf.WriteTo(cfg.Out, "cases_actual_replay"))
+	}
+	if len(ohcf.Cases) > 0 {
+		ohcf.Prelude = histPrelude()
+		res.CorrFiles = append(res.CorrFiles, ohcf.WriteTo(cfg.Out, "cases_hist_replay"))
+	}
+	if len(nhcf.Cases) > 0 {
+		nhcf.Prelude = lat.Oracle(hpats, hstrs) + histPrelude()
+		res.CorrFiles = append(res.CorrFiles, nhcf.WriteTo(cfg.Out, "cases_nhist_replay"))
 	}
 }
